@@ -50,6 +50,11 @@ Inductive query := Q (name : str) (mask : N) (obs : option VV).
     4 keyword), pattern as written, value. *)
 Definition irule := (N * str * VV)%type.
 
+(** A rule text with long runs written compactly: literal bytes, or [n] copies of one byte. *)
+Inductive tseg := TLit (s : str) | TRep (b n : N).
+Definition expand (segs : list tseg) : str :=
+  flat_map (fun g => match g with TLit s => s | TRep b n => repeat b (N.to_nat n) end) segs.
+
 Inductive case :=
   (** MixMatcher[[]int]: SetDefaultMatcher(dflt) (when not ""), Add(rule, value)
       for every rule (error classes observed, continuing after errors), then
@@ -72,6 +77,13 @@ Inductive case :=
       matcher "$top", 2 a qname matcher "extra-exps... $top". [intended] = all
       rules of the sets reachable from [top] (and [extra]), as the generator
       computed them. *)
+  (** the loaders of [CLoad] on a text with over-long lines (around bufio's 64 KiB
+      token limit), or, for which = 0 only, read through a reader that delivers
+      the first [k] bytes and then fails ([cut = Some k]). [intended] = ALL the
+      rules of the entries and of the whole text: a load that reports success
+      must have loaded every one of them. *)
+| CLoadX (which : N) (dflt : str) (entries : list str) (segs : list tseg) (cut : option N)
+         (failed : bool) (intended : list irule) (qs : list query)
 | CCompose (sets : list (list str * str * list N)) (top via : N) (extra : list str)
            (failed : bool) (intended : list irule) (qs : list query).
 
@@ -183,6 +195,15 @@ Definition agree (c : case) : bool :=
     && forallb (fun q => match q with Q n mask obs => obs_ok (single_allowed kind mask m n) obs end) qs
   | CLoad which dflt entries text failed _ qs =>
     let '(m, f) := run_load which dflt entries text in
+    Bool.eqb f failed
+    && (if f && negb (which =? 0) then match qs with [] => true | _ :: _ => false end
+        else check_queries (loaded_view which m) qs)
+  | CLoadX which dflt entries segs cut failed _ qs =>
+    let text := expand segs in
+    let '(m, f0) := run_load which dflt entries
+                             (match cut with Some k => firstn (N.to_nat k) text | None => text end) in
+    (* a failing reader: the scanner hands out what it has read, then reports the error *)
+    let f := f0 || match cut with Some _ => true | None => false end in
     Bool.eqb f failed
     && (if f && negb (which =? 0) then match qs with [] => true | _ :: _ => false end
         else check_queries (loaded_view which m) qs)
@@ -308,17 +329,25 @@ Definition case_rules (c : case) : list irule :=
     intend_all (match kind with 1 => s_full | 2 => s_domain | 3 => s_regexp | _ => s_keyword end)
                (map (fun r => (c_colon :: fst r, snd r)) rules)
   | CLoad _ _ _ _ _ intended _ => intended
+  | CLoadX _ _ _ _ _ _ intended _ => intended
   | CCompose _ _ _ _ _ intended _ => intended
   end.
 Definition case_queries (c : case) : list query :=
   match c with
   | CMix _ _ _ qs => qs | CSingle _ _ _ qs => qs | CLoad _ _ _ _ _ _ qs => qs
+  | CLoadX _ _ _ _ _ _ _ qs => qs
   | CCompose _ _ _ _ _ _ qs => qs
   end.
 
+(** For [CLoadX]: either the load reports an error (then nothing is claimed about
+    what a partially loaded matcher answers), or every rule of the text is in the set. *)
 Definition spec (c : case) : bool :=
-  let rs := case_rules c in
-  if rules_ok rs then forallb (spec_query rs) (case_queries c) else true.
+  match c with
+  | CLoadX _ _ _ _ _ true _ _ => true
+  | _ =>
+    let rs := case_rules c in
+    if rules_ok rs then forallb (spec_query rs) (case_queries c) else true
+  end.
 
 (** A query is non-trivial when at least two rules describe the name, or a
     domain rule is a string suffix of the name without describing it. *)
